@@ -616,6 +616,67 @@ def request_histories(W, rec):
             return
 
 
+def streams_made_and_dropped_first(W, rec):
+    """History on one environ: a middleware asks for the input stream (its own options: no maximum, no safe fallback),
+    looks at nothing or wraps it in a reader, and lets it go; then the application's request reads the body under the
+    application's own limits.  The body arrives complete (nothing was read, nothing is closed), a maximum set by the
+    application holds, and a request without usable length still gets an empty stream."""
+    import gc
+
+    from werkzeug.exceptions import ClientDisconnected, RequestEntityTooLarge
+
+    Request, get_input_stream = W["Request"], W["get_input_stream"]
+    body = b"0123456789abcdefghijklmnopqrstuvwxyzABCD"  # 40 bytes
+    follow = b"NEXT-REQUEST"
+    for kind, first, app_max in itertools.product(("length", "terminated", "no-length"), ("plain", "buffered-reader-dropped", "no-safe-fallback", "with-maximum-1000"), (None, 16, 40, 1000)):
+        # (a terminated input without a maximum is handed to the application as it is: its own read() must be a full one)
+        u = Under(body + (follow if kind != "terminated" else b""), 7 if kind != "terminated" else 100000, True, None)
+        env = {"REQUEST_METHOD": "POST", "wsgi.input": u, "CONTENT_TYPE": "application/octet-stream", "wsgi.url_scheme": "http", "SERVER_NAME": "h", "SERVER_PORT": "80",
+               "PATH_INFO": "/", "SCRIPT_NAME": "", "QUERY_STRING": ""}
+        if kind == "length":
+            env["CONTENT_LENGTH"] = str(len(body))
+        elif kind == "terminated":
+            env["wsgi.input_terminated"] = True
+            env["HTTP_TRANSFER_ENCODING"] = "chunked"
+        try:
+            st0 = get_input_stream(env, safe_fallback=first != "no-safe-fallback", max_content_length=1000 if first == "with-maximum-1000" else None)
+            if first == "buffered-reader-dropped" and isinstance(st0, io.RawIOBase):
+                io.BufferedReader(st0)  # dropped at once, without a read
+            del st0
+        except Exception:  # noqa: BLE001
+            pass
+        gc.collect()
+
+        class R(Request):
+            max_content_length = app_max
+
+        case = {"part": "stream-made-and-dropped-first", "request": kind, "first_stream": first, "application_max_content_length": app_max}
+        rec.case()
+        rec.nontrivial(("dropped-first", kind, first, app_max))
+        rec.observe("requests_after_a_dropped_stream")
+        try:
+            got = R(env).get_data()
+        except RequestEntityTooLarge:
+            got = "413"
+        except ClientDisconnected:
+            got = "disc"
+        except Exception as e:  # noqa: BLE001
+            rec.violation(f"C09/unrelated-exception:{type(e).__name__}", f"{e!r}; {case}", case, monitor="exception-type")
+            continue
+        if kind == "no-length":
+            ok = got == b"" and u.pos == 0
+        elif app_max is not None and app_max < len(body):
+            # over the application's maximum: refused, or (the recorded drain finding) cut at the maximum - never more
+            ok = got == "413" or (isinstance(got, bytes) and got == body[:app_max] and kind == "terminated")
+            ok = ok and u.pos <= (app_max if kind == "terminated" else 0)
+        else:
+            ok = got == body and u.pos <= len(body)
+        if not ok:
+            key = "C09/over-read-underlying" if u.pos > len(body) or (app_max is not None and kind == "terminated" and u.pos > app_max) else "C09/request-after-a-dropped-stream-differs"
+            rec.violation(key, f"got {got!r} after taking {u.pos} bytes from the server's input; {case}", case, monitor="decision-table")
+            return
+
+
 def world():
     from werkzeug import wsgi
     from werkzeug.wrappers import Request
@@ -638,6 +699,7 @@ def run(shard, rec, rng):
         text_layers_directly_on_the_stream(W, rec)
         nested_streams(W, rec)
         request_histories(W, rec)
+        streams_made_and_dropped_first(W, rec)
         reach.finish()
         contracts.report(rec)
         return
